@@ -17,3 +17,10 @@ mod __alloc {
     pub struct Global;
     impl Allocator for Global {}
 }
+
+/// Hooks for out-of-tree proof harnesses (feature `verif-hooks`): the otherwise
+/// private allocator placeholder trait, needed to name `RawTable<T, S, A>`
+/// generically (e.g. for stubbing `reserve_rehash` in a harness).
+#[cfg(all(feature = "verif-hooks", not(any(feature = "allocator-api2", feature = "nightly"))))]
+#[doc(hidden)]
+pub use __alloc::Allocator as VerifAllocator;
